@@ -1,6 +1,6 @@
-\* design-level check of the whole alphabet (namespace + message commands) on a small instance
+\* design-level check of the whole alphabet (namespace + message commands) on a larger instance: names a, a/b, c (thorough)
 CONSTANTS
-  Names <- NamesAC
+  Names <- NamesABC
   Conns = 1
   CatIds = {1}
   MaxMsgs = 1
